@@ -28,7 +28,8 @@ def units(tier):
         if spec.get("syntax") == "quoted":
             continue  # the quoted SYNTAX form is an input-only variant
         has_q = spec.get("desc") or any(f[0] == "single" or f[1] > 0 for _, f in spec.get("exts", []))
-        for n in range(1, (nmax if has_q else 1) + 1):
+        many = len(spec.get("exts", [])) >= 3  # (three extensions: 3 free characters in each of 4 strings is thorough-tier work)
+        for n in range(1, ((nmax - 1 if many and tier == "quick" else nmax) if has_q else 1) + 1):
             sp = dict(spec)
             sp["free"] = True
             sp["rich"] = ["c"] * n
